@@ -40,7 +40,7 @@ ASSUMPTIONS = [
     "intersect (stronger than, and implied for correct code by, 'never match "
     "each other')",
 ]
-FLOORS = {"layout_ok": 300, "pair_disjoint": 2000, "readback": 1500,
+FLOORS = {"kept_object_asked_again": 5000, "kept_object_mask_must_change": 500, "layout_ok": 300, "pair_disjoint": 2000, "readback": 1500,
           "must_layout": 100, "must_reject": 30, "tag_mask": 300,
           "collision_pairs": 500, "last_bit_used": 20}
 SHARDS = {"quick": 16, "thorough": 64}
@@ -350,6 +350,22 @@ def gen(cls, idx, rng, tier):
         ops.append(("layout",))
     for _ in range(rng.randint(2, 6)):
         ops.append(("query", complete()))
+    if cls in ("interleaved", "reuse", "tags", "auto", "deep") and \
+            rng.random() < .4:
+        # the hierarchy grows after it was first laid out and asked (a
+        # third party registers its fields later): more fields, values for
+        # them, another layout, the questions again
+        explicit_p = 0
+        for _ in range(rng.randint(1, 3)):
+            add_one()
+        for _ in range(rng.randint(1, 3)):
+            a = complete()
+            ops.append(("val", a))
+            if sh.judge_values(a) is None:
+                sh.see_values(a)
+        ops.append(("layout",))
+        for _ in range(rng.randint(2, 4)):
+            ops.append(("query", complete()))
     return dict(L=L, ops=ops)
 
 
@@ -470,6 +486,7 @@ def run(case, ctx):
     caller_sets = [set(t) for t in TAGSETS]
     laid_out = False
     queries = []
+    kept = []
     trace = []
 
     def call(what, fn, *a, **k):
@@ -584,10 +601,44 @@ def run(case, ctx):
             if not explicit and total <= L:
                 ctx.hit("must_layout")
             laid_out = True
+            if any(f.loc is None for f in sh.fields):
+                # keys made before the hierarchy grew are keys of another
+                # hierarchy: collisions are judged among keys of one layout
+                collide(ctx, queries)
+                del queries[:]
             check_layout(ctx, bf, sh, call, trace)
         elif kind == "query":
             if not laid_out:
                 continue
+            # objects the application obtained (and asked) earlier are still
+            # in its hands: their masks describe the hierarchy as it is NOW,
+            # whoever extended it in the meantime
+            for a_old, b_old, m_then in kept[-6:]:
+                if sh.judge_values(a_old) is not None:
+                    continue
+                want_old = 0
+                for f in sh.enabled(a_old):
+                    want_old |= bits(*f.loc)
+                if want_old != m_then:
+                    ctx.hit("kept_object_mask_must_change")
+                ok, m_old = call("get_mask", b_old.get_mask)
+                ctx.hit("kept_object_asked_again")
+                check(ok and m_old == want_old, "mask-not-union",
+                      "an object made earlier with %r now reports mask %r; "
+                      "the fields present with those values cover %#x" %
+                      (a_old, m_old, want_old), trace=trace[-8:])
+                for t in ("t1", "t2", "t3"):
+                    tagged = [f for f in sh.enabled(a_old) if t in f.tags]
+                    ok, tm = call("get_mask(tag)",
+                                  lambda: b_old.get_mask(tag=t))
+                    if tagged:
+                        want_t = 0
+                        for f in tagged:
+                            want_t |= bits(*f.loc)
+                        check(ok and tm == want_t, "tag-mask",
+                              "an object made earlier with %r: tag %r mask %r"
+                              ", tagged fields present cover %#x" %
+                              (a_old, t, tm, want_t), trace=trace[-8:])
             assign = op[1]
             if sh.judge_values(assign) is not None:
                 ok, _ = call("bf(**assign)", lambda: bf(**assign))
@@ -601,6 +652,7 @@ def run(case, ctx):
                 continue
             km = check_query(ctx, b, sh, assign, en, call, B)
             queries.append((assign, km))
+            kept.append((dict(assign), b, km[1]))
             # the same bit field with only some of the values given: the mask
             # is the union of the fields that are present THEN (a scope whose
             # selector has no value yet contributes nothing)
@@ -626,6 +678,7 @@ def run(case, ctx):
                 check(ok and pm == want_pm, "mask-not-union",
                       "with only %r given the mask is %r, the fields present "
                       "then cover %#x" % (part, pm, want_pm), assign=assign)
+                kept.append((dict(part), bp, pm))
             # a value, once given, cannot be given again on the derived
             # bit field; unknown fields are refused; equality is by value
             if assign:
@@ -647,16 +700,7 @@ def run(case, ctx):
             except TypeError as e:
                 both = e
             check(both is not None, "tag-and-field-accepted", "")
-    # collisions
-    for (a1, (k1, m1)), (a2, (k2, m2)) in itertools.combinations(queries, 2):
-        if a1 == a2:
-            check((k1, m1) == (k2, m2), "same-assignment-different-key",
-                  "%r" % (a1,))
-            continue
-        ctx.hit("collision_pairs")
-        check((k1 & m2) != (k2 & m1), "keys-collide",
-              "%r -> %#x/%#x and %r -> %#x/%#x intersect" %
-              (a1, k1, m1, a2, k2, m2))
+    collide(ctx, queries)
     share = False
     if laid_out:
         for f, g in itertools.combinations(sh.fields, 2):
@@ -670,6 +714,18 @@ def run(case, ctx):
     ctx.note(dict(fields=[(f.name, f.scope, f.loc) for f in sh.fields][:12],
                   laid_out=laid_out, queries=len(queries)))
     return "ok"
+
+
+def collide(ctx, queries):
+    for (a1, (k1, m1)), (a2, (k2, m2)) in itertools.combinations(queries, 2):
+        if a1 == a2:
+            check((k1, m1) == (k2, m2), "same-assignment-different-key",
+                  "%r" % (a1,))
+            continue
+        ctx.hit("collision_pairs")
+        check((k1 & m2) != (k2 & m1), "keys-collide",
+              "%r -> %#x/%#x and %r -> %#x/%#x intersect" %
+              (a1, k1, m1, a2, k2, m2))
 
 
 def check_layout(ctx, bf, sh, call, trace):
